@@ -1,5 +1,6 @@
 from __future__ import annotations
 
+import functools
 import math
 import struct
 from abc import ABC, abstractmethod
@@ -2914,6 +2915,7 @@ class UnregisteredAttr(ParametrizedAttribute, BuiltinAttribute, ABC):
                 printer.print_string(f"<{self.value.data}>")
 
     @classmethod
+    @functools.cache
     def with_name_and_type(cls, name: str, is_type: bool) -> type[UnregisteredAttr]:
         """
         Return a new unregistered attribute type given a name and a
